@@ -10,4 +10,671 @@ theorem loadRef_render (s : PStream) : loadRef (render s) = loadChars s.chars :=
   unfold loadRef render
   simp [String.toUTF8_eq_toByteArray, String.toByteArray_ofList, List.utf8Decode?_utf8Encode]
 
+/-! ## Digits -/
+
+theorem digitVal_digitChar (d : Nat) (h : d < 16) : digitVal (Nat.digitChar d) = d := by
+  have : d = 0 ∨ d = 1 ∨ d = 2 ∨ d = 3 ∨ d = 4 ∨ d = 5 ∨ d = 6 ∨ d = 7 ∨ d = 8 ∨ d = 9 ∨ d = 10 ∨
+      d = 11 ∨ d = 12 ∨ d = 13 ∨ d = 14 ∨ d = 15 := by omega
+  rcases this with h | h | h | h | h | h | h | h | h | h | h | h | h | h | h | h <;> subst h <;> decide
+
+theorem natOfDigits_append (b : Nat) (xs ys : Str) :
+    natOfDigits b (xs ++ ys) = ys.foldl (fun a c => a * b + digitVal c) (natOfDigits b xs) := by
+  simp [natOfDigits, List.foldl_append]
+
+theorem natOfDigits_toDigits (b : Nat) (hb : 1 < b) (hb16 : b ≤ 16) (n : Nat) :
+    natOfDigits b (Nat.toDigits b n) = n := by
+  induction n using Nat.strongRecOn with
+  | _ n ih =>
+    rw [Nat.toDigits_eq_if hb]
+    split
+    · simp [natOfDigits, digitVal_digitChar n (by omega)]
+    · rename_i h
+      have hlt : n / b < n := Nat.div_lt_self (by omega) hb
+      rw [natOfDigits_append, ih _ hlt]
+      simp only [List.foldl_cons, List.foldl_nil]
+      rw [digitVal_digitChar _ (by have := Nat.mod_lt n (show b > 0 by omega); omega)]
+      have := Nat.div_add_mod n b
+      rw [Nat.mul_comm]; exact this
+
+
+/-! ## Double-quoted scalars -/
+
+theorem parseDQ_raw (c : Char) (rest : Str) (h1 : c ≠ '"') (h2 : c ≠ '\n') (h3 : c ≠ '\\') :
+    parseDQ (c :: rest) = consR c (parseDQ rest) := by
+  rw [parseDQ.eq_def]
+  split <;> simp_all
+
+theorem parseDQ_simple (e c : Char) (rest : Str) (h : simpleEscape? e = some c)
+    (hx : e ≠ 'x') (hu : e ≠ 'u') (hU : e ≠ 'U') :
+    parseDQ ('\\' :: e :: rest) = consR c (parseDQ rest) := by
+  rw [parseDQ.eq_def]
+  split <;> first | (simp_all; done) | grind
+
+theorem parseDQ_x (a b c : Char) (rest : Str) (h : hexChar? [a, b] = some c) :
+    parseDQ ('\\' :: 'x' :: a :: b :: rest) = consR c (parseDQ rest) := by
+  rw [parseDQ.eq_def]; simp [h]
+theorem parseDQ_u (a b c d ch : Char) (rest : Str) (h : hexChar? [a, b, c, d] = some ch) :
+    parseDQ ('\\' :: 'u' :: a :: b :: c :: d :: rest) = consR ch (parseDQ rest) := by
+  rw [parseDQ.eq_def]; simp [h]
+theorem parseDQ_U (a b c d e f g h' ch : Char) (rest : Str) (h : hexChar? [a, b, c, d, e, f, g, h'] = some ch) :
+    parseDQ ('\\' :: 'U' :: a :: b :: c :: d :: e :: f :: g :: h' :: rest) = consR ch (parseDQ rest) := by
+  rw [parseDQ.eq_def]; simp [h]
+
+theorem charOfNat?_toNat (c : Char) : charOfNat? c.toNat = some c := by
+  unfold charOfNat?
+  have hv : c.toNat.isValidChar := c.valid
+  rw [dif_pos hv]
+  congr 1
+  apply Char.ext
+  show c.toNat.toUInt32 = c.val
+  apply UInt32.toNat_inj.mp
+  have : c.val.toNat < 4294967296 := c.val.toNat_lt
+  show (UInt32.ofNat c.val.toNat).toNat = c.val.toNat
+  simp [UInt32.toNat_ofNat']
+  exact this
+
+theorem hexDigitChar_ok (d : Nat) (h : d < 16) : digitVal (hexDigitChar d) = d ∧ isHexDigit (hexDigitChar d) = true := by
+  have : d = 0 ∨ d = 1 ∨ d = 2 ∨ d = 3 ∨ d = 4 ∨ d = 5 ∨ d = 6 ∨ d = 7 ∨ d = 8 ∨ d = 9 ∨ d = 10 ∨
+      d = 11 ∨ d = 12 ∨ d = 13 ∨ d = 14 ∨ d = 15 := by omega
+  rcases this with h | h | h | h | h | h | h | h | h | h | h | h | h | h | h | h <;> subst h <;> decide
+
+theorem hexFixed_all (w n : Nat) : (hexFixed w n).all isHexDigit = true := by
+  induction w generalizing n with
+  | zero => simp [hexFixed]
+  | succ w ih =>
+    simp only [hexFixed, List.all_append, ih, List.all_cons, List.all_nil, Bool.and_true, Bool.true_and]
+    exact (hexDigitChar_ok _ (Nat.mod_lt _ (by omega))).2
+
+theorem natOfDigits_hexFixed (w n : Nat) : natOfDigits 16 (hexFixed w n) = n % 16 ^ w := by
+  induction w generalizing n with
+  | zero => simp [hexFixed, natOfDigits, Nat.mod_one]
+  | succ w ih =>
+    simp only [hexFixed]
+    rw [natOfDigits_append, ih]
+    simp only [List.foldl_cons, List.foldl_nil]
+    rw [(hexDigitChar_ok _ (Nat.mod_lt n (by omega))).1]
+    rw [Nat.pow_succ, Nat.mul_comm (16 ^ w) 16, Nat.mod_mul]
+    omega
+
+theorem hexChar?_hexFixed (w : Nat) (c : Char) (h : c.toNat < 16 ^ w) : hexChar? (hexFixed w c.toNat) = some c := by
+  simp [hexChar?, hexVal?, hexFixed_all, natOfDigits_hexFixed, Nat.mod_eq_of_lt h, charOfNat?_toNat]
+
+
+theorem shortEscape_sound (c e : Char) (h : shortEscape? c = some e) :
+    simpleEscape? e = some c ∧ e ≠ 'x' ∧ e ≠ 'u' ∧ e ≠ 'U' := by
+  have hc : c = Char.ofNat c.toNat := (Char.ofNat_toNat c).symm
+  unfold shortEscape? at h
+  split at h <;> simp at h <;> subst h <;> rename_i hn <;> rw [hc, hn] <;> decide
+
+theorem printable_ne_nl (c : Char) (h : isPrintable c = true) : c ≠ '\n' := by
+  intro hc; subst hc; revert h; decide
+
+theorem parseDQ_numEscape (c : Char) (rest : Str) :
+    parseDQ (numEscape c ++ rest) = consR c (parseDQ rest) := by
+  unfold numEscape
+  simp only
+  split
+  · rename_i h
+    have := hexChar?_hexFixed 2 c (by simpa using h)
+    simp only [hexFixed, List.nil_append, List.cons_append] at this ⊢
+    exact parseDQ_x _ _ _ _ this
+  · split
+    · rename_i h
+      have := hexChar?_hexFixed 4 c (by simpa using h)
+      simp only [hexFixed, List.nil_append, List.cons_append] at this ⊢
+      exact parseDQ_u _ _ _ _ _ _ this
+    · have hlt : c.toNat < 16 ^ 8 := by
+        have hv : c.val.toNat.isValidChar := c.valid
+        have h2 : c.toNat = c.val.toNat := rfl
+        unfold Nat.isValidChar at hv
+        omega
+      have := hexChar?_hexFixed 8 c hlt
+      simp only [hexFixed, List.nil_append, List.cons_append] at this ⊢
+      exact parseDQ_U _ _ _ _ _ _ _ _ _ _ this
+
+theorem parseDQ_dqChar (sh eu : Bool) (c : Char) (rest : Str) :
+    parseDQ (dqChar sh eu c ++ rest) = consR c (parseDQ rest) := by
+  unfold dqChar
+  split
+  · rename_i h; have : c = '"' := by simpa using h
+    subst this; exact parseDQ_simple '"' '"' rest (by decide) (by decide) (by decide) (by decide)
+  · split
+    · rename_i h; have : c = '\\' := by simpa using h
+      subst this; exact parseDQ_simple '\\' '\\' rest (by decide) (by decide) (by decide) (by decide)
+    · rename_i h1 h2
+      split
+      · rename_i h3
+        have hp : isPrintable c = true := by
+          simp only [Bool.and_eq_true] at h3; exact h3.1.1
+        exact parseDQ_raw c rest (by simpa using h1) (printable_ne_nl c hp) (by simpa using h2)
+      · split
+        · split
+          · rename_i e he
+            obtain ⟨a, b, c', d⟩ := shortEscape_sound c e he
+            exact parseDQ_simple e c rest a b c' d
+          · exact parseDQ_numEscape c rest
+        · exact parseDQ_numEscape c rest
+
+theorem parseDQ_dqBody (sh eu : Bool) (s rest : Str) :
+    parseDQ (s.flatMap (dqChar sh eu) ++ '"' :: rest) = .ok (s, rest) := by
+  induction s with
+  | nil => simp [parseDQ]
+  | cons c s ih =>
+    simp only [List.flatMap_cons, List.append_assoc]
+    rw [parseDQ_dqChar, ih]; rfl
+
+
+/-! ## Simple tokens (null / bool / decimal int spellings) as plain scalars -/
+
+def simpleChar (c : Char) : Bool := c.isAlphanum || c == '+' || c == '-' || c == '~'
+
+/-- The remaining input ends the token: end of line or a flow indicator. -/
+def Delim (rest : Str) : Prop := rest = [] ∨ ∃ d r, rest = d :: r ∧ isFlowInd d = true
+
+theorem simpleChar_facts (c : Char) (h : simpleChar c = true) :
+    c ≠ ':' ∧ c ≠ ' ' ∧ c ≠ '\t' ∧ isFlowInd c = false ∧ c ≠ '#' := by
+  have hn : c.toNat = c.toNat := rfl
+  refine ⟨?_, ?_, ?_, ?_, ?_⟩ <;> (try intro hc; subst hc; revert h; decide)
+  -- isFlowInd
+  cases hf : isFlowInd c with
+  | false => rfl
+  | true =>
+    exfalso
+    have : c = ',' ∨ c = '[' ∨ c = ']' ∨ c = '{' ∨ c = '}' := by
+      simp [isFlowInd] at hf; omega
+    rcases this with h' | h' | h' | h' | h' <;> subst h' <;> revert h <;> decide
+
+theorem plainLen_flowInd (d : Char) (r : Str) (hd : isFlowInd d = true) : plainLen true (d :: r) = 0 := by
+  cases r with
+  | nil => simp [plainLen, hd]
+  | cons e r => simp [plainLen, hd]
+
+theorem plainLen_simple (flow : Bool) (t rest : Str) (ht : t.all simpleChar = true)
+    (hr : rest = [] ∨ (flow = true ∧ ∃ d r, rest = d :: r ∧ isFlowInd d = true)) :
+    plainLen flow (t ++ rest) = t.length := by
+  induction t with
+  | nil =>
+    rcases hr with rfl | ⟨rfl, d, r, rfl, hd⟩
+    · simp [plainLen]
+    · simpa using plainLen_flowInd d r hd
+  | cons c t ih =>
+    simp only [List.all_cons, Bool.and_eq_true] at ht
+    obtain ⟨h1, h2, h3, h4, h5⟩ := simpleChar_facts c ht.1
+    have ih' := ih ht.2
+    cases hrest : t ++ rest with
+    | nil =>
+      simp only [List.cons_append, hrest]
+      have : t = [] := by cases t <;> simp_all
+      subst this
+      simp [plainLen, h1, h4]
+    | cons d r =>
+      simp only [List.cons_append, hrest]
+      rw [plainLen]
+      simp only [h4, Bool.and_false, Bool.false_eq_true, if_false]
+      rw [← hrest, ih']
+      simp [h1, h2]; omega
+  all_goals trivial
+
+
+theorem indicator_not_simple (c : Char) (h : isIndicator c = true) : c = '-' ∨ simpleChar c = false := by
+  have h' : c ∈ ['-', '?', ':', ',', '[', ']', '{', '}', '#', '&', '*', '!', '|', '>', '\'', '"', '%', '@', '`'] := by
+    simpa [isIndicator] using h
+  simp only [List.mem_cons, List.mem_nil_iff, or_false] at h'
+  rcases h' with h' | h' | h' | h' | h' | h' | h' | h' | h' | h' | h' | h' | h' | h' | h' | h' | h' | h' | h' <;>
+    subst h' <;> first | (left; rfl) | (right; decide)
+
+/-- A token made of simple characters that can start a plain scalar. -/
+def tokOk (t : Str) : Prop := t.all simpleChar = true ∧ t ≠ [] ∧ (t.head? = some '-' → 2 ≤ t.length)
+
+theorem trimRight_of_last (t : Str) (h : t.getLast? ≠ some ' ') : trimRight t = t := by
+  unfold trimRight
+  cases hr : t.reverse with
+  | nil => simp_all
+  | cons l r =>
+    have : t.getLast? = some l := by
+      rw [List.getLast?_eq_head?_reverse, hr]; rfl
+    have hl : l ≠ ' ' := by intro h'; subst h'; exact h this
+    rw [List.dropWhile_cons]
+    simp only [beq_iff_eq, hl, if_false]
+    rw [← hr, List.reverse_reverse]
+
+theorem parsePlain_tok (flow : Bool) (t rest : Str) (ht : tokOk t)
+    (hr : rest = [] ∨ (flow = true ∧ ∃ d r, rest = d :: r ∧ isFlowInd d = true)) :
+    parsePlain flow (t ++ rest) = .ok (t, rest) := by
+  obtain ⟨hall, hne, hdash⟩ := ht
+  have hlen := plainLen_simple flow t rest hall hr
+  have hfirst : plainFirstOk flow (t ++ rest) = true := by
+    cases t with
+    | nil => exact absurd rfl hne
+    | cons c t' =>
+      simp only [List.all_cons, Bool.and_eq_true] at hall
+      obtain ⟨h1, h2, h3, h4, h5⟩ := simpleChar_facts c hall.1
+      simp only [List.cons_append, plainFirstOk]
+      by_cases hc : c = '-'
+      · subst hc
+        have : 2 ≤ (('-' : Char) :: t').length := hdash rfl
+        cases t' with
+        | nil => simp at this
+        | cons d t'' =>
+          simp only [List.all_cons, Bool.and_eq_true] at hall
+          obtain ⟨g1, g2, g3, g4, g5⟩ := simpleChar_facts d hall.2.1
+          simp [g2, g4]
+      · have hq : c ≠ '?' := by
+          intro h; subst h; have := hall.1; revert this; decide
+        have hni : isIndicator c = false := by
+          cases hi : isIndicator c with
+          | false => rfl
+          | true =>
+            rcases indicator_not_simple c hi with h | h
+            · exact absurd h hc
+            · rw [hall.1] at h; cases h
+        simp [hc, hq, h1, hni, h2]
+  unfold parsePlain
+  simp only [hfirst, Bool.not_true, Bool.false_eq_true, if_false, hlen, List.take_left', List.drop_left']
+  have hlast : t.getLast? ≠ some ' ' := by
+    intro h
+    have hm : ' ' ∈ t := List.mem_of_getLast? h
+    have := List.all_eq_true.mp hall ' ' hm
+    revert this; decide
+  rw [trimRight_of_last t hlast]
+  have hnotab : t.any (· == '\t') = false := by
+    rw [List.any_eq_false]
+    intro x hx
+    have := List.all_eq_true.mp hall x hx
+    obtain ⟨_, _, g3, _, _⟩ := simpleChar_facts x this
+    simpa using g3
+  simp [hnotab]
+
+
+/-! ## Syntax tree of a presentation-annotated tree, layer-1 predicate, fuel -/
+
+def keyNode (k : Str) : KStyle → Node
+  | .plain => .scalar true k
+  | _ => .scalar false k
+
+mutual
+def PNode.node : PNode → Node
+  | .null v => .scalar true (nullText v)
+  | .bool b v => .scalar true (boolText b v)
+  | .int i v => .scalar true (intText i v)
+  | .str s .plain => .scalar true s
+  | .str s _ => .scalar false s
+  | .seq _ _ _ items => .seq items.nodes
+  | .map _ _ _ es => .map es.nodes
+  | .anchored a n => .anchored a n.node
+  | .alias a _ => .alias a
+def PItems.nodes : PItems → List Node
+  | .nil => []
+  | .cons _ n r => n.node :: r.nodes
+def PEntries.nodes : PEntries → List (Node × Node)
+  | .nil => []
+  | .cons _ k ks n r => (keyNode k ks, n.node) :: r.nodes
+end
+
+mutual
+/-- Layer 1: flow collections, double-quoted strings and keys, `null`/bool spellings, decimal ints. -/
+def PNode.l1 : PNode → Bool
+  | .null v => v % 5 != 4
+  | .bool _ _ => true
+  | .int _ v => v % 5 == 0
+  | .str _ (.double _ _) => true
+  | .seq true _ _ items => items.l1
+  | .map true _ _ es => es.l1
+  | _ => false
+def PItems.l1 : PItems → Bool
+  | .nil => true
+  | .cons _ n r => n.l1 && r.l1
+def PEntries.l1 : PEntries → Bool
+  | .nil => true
+  | .cons _ _ ks n r => (match ks with | .double _ _ => true | _ => false) && n.l1 && r.l1
+end
+
+mutual
+def PNode.need : PNode → Nat
+  | .seq _ _ _ items => items.need + 2
+  | .map _ _ _ es => es.need + 2
+  | _ => 1
+def PItems.need : PItems → Nat
+  | .nil => 1
+  | .cons _ n r => n.need + r.need + 2
+def PEntries.need : PEntries → Nat
+  | .nil => 1
+  | .cons _ _ _ n r => n.need + r.need + 3
+end
+
+theorem dropSpaces_spaces (k : Nat) (c : Char) (t : Str) (h : c ≠ ' ') :
+    dropSpaces (spaces k ++ c :: t) = c :: t := by
+  induction k with
+  | zero => simp [spaces, dropSpaces, List.dropWhile_cons, h]
+  | succ k ih =>
+    have : spaces (k + 1) = ' ' :: spaces k := by simp [spaces, List.replicate_succ]
+    rw [this, List.cons_append]
+    unfold dropSpaces at ih ⊢
+    rw [List.dropWhile_cons]
+    simpa using ih
+
+/-! ### tokens -/
+
+theorem tokOk_nullText (v : Nat) (h : v % 5 ≠ 4) : tokOk (nullText v) := by
+  have : v % 5 = 0 ∨ v % 5 = 1 ∨ v % 5 = 2 ∨ v % 5 = 3 := by omega
+  rcases this with h' | h' | h' | h' <;> simp only [nullText, h'] <;> refine ⟨by decide, by decide, by decide⟩
+
+theorem tokOk_boolText (b : Bool) (v : Nat) : tokOk (boolText b v) := by
+  have : v % 3 = 0 ∨ v % 3 = 1 ∨ v % 3 = 2 := by omega
+  cases b <;> rcases this with h' | h' | h' <;> simp only [boolText, h'] <;> refine ⟨by decide, by decide, by decide⟩
+
+theorem toDigits10_all (n : Nat) : (Nat.toDigits 10 n).all simpleChar = true := by
+  rw [List.all_eq_true]
+  intro c hc
+  have := Nat.isDigit_of_mem_toDigits (b := 10) (by decide) (by decide) hc
+  simp [simpleChar, Char.isAlphanum, this]
+
+theorem tokOk_intText (i : Int) (v : Nat) (h : v % 5 = 0) : tokOk (intText i v) := by
+  unfold intText
+  simp only [h]
+  split
+  · refine ⟨toDigits10_all _, Nat.toDigits_ne_nil, ?_⟩
+    intro hh
+    cases hd : Nat.toDigits 10 i.toNat with
+    | nil => exact absurd hd Nat.toDigits_ne_nil
+    | cons c t =>
+      have hm : c ∈ Nat.toDigits 10 i.toNat := by rw [hd]; simp
+      have := Nat.isDigit_of_mem_toDigits (b := 10) (by decide) (by decide) hm
+      simp only [natDigits, hd, List.head?_cons, Option.some.injEq] at hh
+      subst hh; exact absurd this (by decide)
+  · refine ⟨?_, by simp, ?_⟩
+    · simp only [List.all_cons, natDigits, toDigits10_all, Bool.and_true]; decide
+    · intro _
+      have := Nat.length_toDigits_pos (b := 10) (n := i.natAbs)
+      simp [natDigits]; omega
+
+theorem parseFlow_tok (f k : Nat) (t rest : Str) (ht : tokOk t) (hr : Delim rest) :
+    parseFlow (f + 1) (spaces k ++ t ++ rest) = .ok (.scalar true t, rest) := by
+  obtain ⟨hall, hne, hdash⟩ := ht
+  cases t with
+  | nil => exact absurd rfl hne
+  | cons c t' =>
+    have hc : simpleChar c = true := by simp only [List.all_cons, Bool.and_eq_true] at hall; exact hall.1
+    obtain ⟨h1, h2, h3, h4, h5⟩ := simpleChar_facts c hc
+    have hp := parsePlain_tok true (c :: t') rest ⟨hall, hne, hdash⟩
+      (by rcases hr with h | ⟨d, r, h, hd⟩
+          · exact Or.inl h
+          · exact Or.inr ⟨rfl, d, r, h, hd⟩)
+    rw [parseFlow]
+    simp only [List.append_assoc, List.cons_append, dropSpaces_spaces k c _ h2]
+    simp only [List.cons_append] at hp
+    split
+    · rename_i heq; simp at heq
+    all_goals (try (rename_i heq; have := (List.cons.inj heq).1; subst this; exact absurd hc (by decide)))
+    rw [hp]; rfl
+
+
+theorem parseFlow_dq (f k : Nat) (sh eu : Bool) (s rest : Str) :
+    parseFlow (f + 1) (spaces k ++ dqText sh eu s ++ rest) = .ok (.scalar false s, rest) := by
+  rw [parseFlow]
+  simp only [dqText, List.append_assoc, List.cons_append, dropSpaces_spaces k '"' _ (by decide)]
+  have := parseDQ_dqBody sh eu s rest
+  simp only [List.nil_append, List.cons_append] at this ⊢
+  rw [this]; rfl
+
+/-- The first character of a layer-1 node's flow text is not a space, comma or closing bracket. -/
+def goodHead (t : Str) : Prop :=
+  ∃ c r, t = c :: r ∧ c ≠ ' ' ∧ c ≠ ']' ∧ c ≠ '}' ∧ c ≠ ','
+
+theorem goodHead_tok (t : Str) (h : tokOk t) : goodHead t := by
+  obtain ⟨hall, hne, _⟩ := h
+  cases t with
+  | nil => exact absurd rfl hne
+  | cons c r =>
+    have hc : simpleChar c = true := by simp only [List.all_cons, Bool.and_eq_true] at hall; exact hall.1
+    refine ⟨c, r, rfl, ?_, ?_, ?_, ?_⟩ <;> (intro h; subst h; exact absurd hc (by decide))
+
+theorem goodHead_flow (n : PNode) (h : n.l1 = true) : goodHead n.flow := by
+  cases n with
+  | null v => exact goodHead_tok _ (tokOk_nullText v (by simpa [PNode.l1] using h))
+  | bool b v => exact goodHead_tok _ (tokOk_boolText b v)
+  | int i v => exact goodHead_tok _ (tokOk_intText i v (by simpa [PNode.l1] using h))
+  | str s st =>
+    cases st <;> simp [PNode.l1] at h
+    exact ⟨'"', _, rfl, by decide, by decide, by decide, by decide⟩
+  | seq fl st c items => exact ⟨'[', _, rfl, by decide, by decide, by decide, by decide⟩
+  | map fl st c es => exact ⟨'{', _, rfl, by decide, by decide, by decide, by decide⟩
+  | anchored a n => simp [PNode.l1] at h
+  | alias a t => simp [PNode.l1] at h
+
+theorem delim_items (r : PItems) (rest : Str) : Delim (r.flow false ++ ']' :: rest) := by
+  cases r with
+  | nil => exact Or.inr ⟨']', rest, by simp [PItems.flow], by decide⟩
+  | cons m x r' =>
+    exact Or.inr ⟨',', spaces (m.gap + 1) ++ (x.flow ++ (r'.flow false ++ ']' :: rest)), by simp [PItems.flow], by decide⟩
+
+theorem delim_entries (r : PEntries) (rest : Str) : Delim (r.flow false ++ '}' :: rest) := by
+  cases r with
+  | nil => exact Or.inr ⟨'}', rest, by simp [PEntries.flow], by decide⟩
+  | cons m k ks x r' =>
+    exact Or.inr ⟨',', ' ' :: (keyText k ks ++ ':' :: (spaces (m.gap + 1) ++ (x.flow ++ (r'.flow false ++ '}' :: rest)))),
+      by simp [PEntries.flow], by decide⟩
+
+/-- One item of a flow sequence. -/
+theorem itemStep (f j : Nat) (xt R : Str) (xn : Node) (acc : List Node) (hg : goodHead xt)
+    (hx : parseFlow f (xt ++ R) = .ok (xn, R)) :
+    parseFlowSeq (f + 1) (spaces j ++ xt ++ R) acc = parseFlowSeqTail f R (xn :: acc) := by
+  obtain ⟨c0, t0, rfl, g1, g2, g3, g4⟩ := hg
+  rw [parseFlowSeq]
+  simp only [List.append_assoc, List.cons_append, dropSpaces_spaces j c0 _ g1] at hx ⊢
+  split
+  · rename_i heq; exact absurd (List.cons.inj heq).1 g2
+  · rw [hx]
+
+/-- One entry of a flow mapping with a double-quoted key. -/
+theorem entryStep (f j g : Nat) (sh eu : Bool) (k xt R : Str) (xn : Node) (acc : List (Node × Node)) (hg : goodHead xt)
+    (hx : parseFlow f (spaces (g + 1) ++ xt ++ R) = .ok (xn, R)) :
+    parseFlowMap (f + 1) (spaces j ++ dqText sh eu k ++ (':' :: spaces (g + 1)) ++ xt ++ R) acc
+      = parseFlowMapTail f R ((.scalar false k, xn) :: acc) := by
+  obtain ⟨c0, t0, rfl, g1, g2, g3, g4⟩ := hg
+  rw [parseFlowMap]
+  have hk : ∀ T, dropSpaces (spaces j ++ (dqText sh eu k ++ T)) = dqText sh eu k ++ T := by
+    intro T; simp only [dqText, List.append_assoc, List.cons_append]; exact dropSpaces_spaces j '"' _ (by decide)
+  simp only [List.append_assoc] at hx ⊢
+  rw [hk]
+  obtain ⟨f', rfl⟩ : ∃ f', f = f' + 1 := by
+    cases f with
+    | zero => simp [parseFlow] at hx
+    | succ f' => exact ⟨f', rfl⟩
+  have hkey := parseFlow_dq f' 0 sh eu k (':' :: (spaces (g + 1) ++ (c0 :: t0 ++ R)))
+  simp only [spaces, List.replicate_zero, List.nil_append, List.append_assoc, List.cons_append] at hkey hx ⊢
+  split
+  · rename_i heq; simp [dqText] at heq
+  · rw [hkey]
+    simp only [dropSpaces, List.dropWhile_cons, show ((':' : Char) == ' ') = false by decide, Bool.false_eq_true, if_false]
+    have hd : List.dropWhile (fun x => x == ' ') (List.replicate (g + 1) ' ' ++ c0 :: (t0 ++ R)) = c0 :: (t0 ++ R) := by
+      have := dropSpaces_spaces (g + 1) c0 (t0 ++ R) g1
+      simpa [dropSpaces, spaces] using this
+    rw [hd]
+    split
+    · rename_i heq; exact absurd (List.cons.inj heq).1 g4
+    · rename_i heq; exact absurd (List.cons.inj heq).1 g3
+    · rw [hx]
+
+mutual
+theorem flowNode : (n : PNode) → n.l1 = true → ∀ (f : Nat) (rest : Str) (k : Nat), n.need ≤ f → Delim rest →
+    parseFlow f (spaces k ++ n.flow ++ rest) = .ok (n.node, rest)
+  | .null v, h, f, rest, k, hf, hd => by
+    obtain ⟨f', rfl⟩ : ∃ f', f = f' + 1 := ⟨f - 1, by simp [PNode.need] at hf; omega⟩
+    exact parseFlow_tok f' k _ rest (tokOk_nullText v (by simpa [PNode.l1] using h)) hd
+  | .bool b v, h, f, rest, k, hf, hd => by
+    obtain ⟨f', rfl⟩ : ∃ f', f = f' + 1 := ⟨f - 1, by simp [PNode.need] at hf; omega⟩
+    exact parseFlow_tok f' k _ rest (tokOk_boolText b v) hd
+  | .int i v, h, f, rest, k, hf, hd => by
+    obtain ⟨f', rfl⟩ : ∃ f', f = f' + 1 := ⟨f - 1, by simp [PNode.need] at hf; omega⟩
+    exact parseFlow_tok f' k _ rest (tokOk_intText i v (by simpa [PNode.l1] using h)) hd
+  | .str s st, h, f, rest, k, hf, hd => by
+    obtain ⟨f', rfl⟩ : ∃ f', f = f' + 1 := ⟨f - 1, by simp [PNode.need] at hf; omega⟩
+    cases st <;> simp [PNode.l1] at h
+    simp only [PNode.flow, strFlowText, PNode.node]
+    exact parseFlow_dq f' k _ _ s rest
+  | .seq fl st c items, h, f, rest, k, hf, hd => by
+    have hfl : fl = true := by cases fl <;> simp [PNode.l1] at h ⊢
+    subst hfl
+    have hi : items.l1 = true := by simpa [PNode.l1] using h
+    obtain ⟨f', rfl⟩ : ∃ f', f = f' + 2 := ⟨f - 2, by simp [PNode.need] at hf; omega⟩
+    have hf' : items.need ≤ f' := by simp [PNode.need] at hf; omega
+    rw [parseFlow]
+    simp only [PNode.flow, List.append_assoc, List.cons_append, dropSpaces_spaces k '[' _ (by decide), PNode.node]
+    cases items with
+    | nil =>
+      rw [parseFlowSeq]
+      simp [PItems.flow, dropSpaces, PItems.nodes]
+    | cons m x r =>
+      have hx : x.l1 = true := by simp [PItems.l1] at hi; exact hi.1
+      have hr : r.l1 = true := by simp [PItems.l1] at hi; exact hi.2
+      have hneed : x.need + r.need + 2 ≤ f' := by simpa [PItems.need] using hf'
+      have e2 := flowNode x hx f' (r.flow false ++ ']' :: rest) 0 (by omega) (delim_items r rest)
+      simp only [spaces, List.replicate_zero, List.nil_append, List.append_assoc] at e2
+      have st := itemStep f' m.gap x.flow (r.flow false ++ ']' :: rest) x.node [] (goodHead_flow x hx) e2
+      simp only [PItems.flow, if_true, List.nil_append, List.append_assoc] at st ⊢
+      rw [st, flowItemsTail r hr f' rest [x.node] (by omega)]
+      simp [PItems.nodes]
+  | .map fl st c es, h, f, rest, k, hf, hd => by
+    have hfl : fl = true := by cases fl <;> simp [PNode.l1] at h ⊢
+    subst hfl
+    have hi : es.l1 = true := by simpa [PNode.l1] using h
+    obtain ⟨f', rfl⟩ : ∃ f', f = f' + 2 := ⟨f - 2, by simp [PNode.need] at hf; omega⟩
+    have hf' : es.need ≤ f' := by simp [PNode.need] at hf; omega
+    rw [parseFlow]
+    simp only [PNode.flow, List.append_assoc, List.cons_append, dropSpaces_spaces k '{' _ (by decide), PNode.node]
+    cases es with
+    | nil =>
+      rw [parseFlowMap]
+      simp [PEntries.flow, dropSpaces, PEntries.nodes]
+    | cons m key ks x r =>
+      have hks : ∃ sh eu, ks = .double sh eu := by
+        cases ks <;> simp [PEntries.l1] at hi
+        exact ⟨_, _, rfl⟩
+      obtain ⟨sh, eu, rfl⟩ := hks
+      have hx : x.l1 = true := by simp [PEntries.l1] at hi; exact hi.1
+      have hr : r.l1 = true := by simp [PEntries.l1] at hi; exact hi.2
+      have hneed : x.need + r.need + 3 ≤ f' := by simpa [PEntries.need] using hf'
+      have e2 := flowNode x hx f' (r.flow false ++ '}' :: rest) (m.gap + 1) (by omega) (delim_entries r rest)
+      have st := entryStep f' 0 m.gap sh eu key x.flow (r.flow false ++ '}' :: rest) x.node [] (goodHead_flow x hx) e2
+      simp only [spaces, List.replicate_zero, PEntries.flow, if_true, List.nil_append, List.append_assoc, keyText, List.cons_append] at st ⊢
+      rw [st, flowEntriesTail r hr f' rest [(.scalar false key, x.node)] (by omega)]
+      simp [PEntries.nodes, keyNode]
+  | .anchored a n, h, _, _, _, _, _ => by simp [PNode.l1] at h
+  | .alias a t, h, _, _, _, _, _ => by simp [PNode.l1] at h
+theorem flowItemsTail : (items : PItems) → items.l1 = true → ∀ (f : Nat) (rest : Str) (acc : List Node), items.need ≤ f →
+    parseFlowSeqTail f (items.flow false ++ ']' :: rest) acc = .ok (.seq (acc.reverse ++ items.nodes), rest)
+  | .nil, _, f, rest, acc, hf => by
+    obtain ⟨f', rfl⟩ : ∃ f', f = f' + 1 := ⟨f - 1, by simp [PItems.need] at hf; omega⟩
+    rw [parseFlowSeqTail]
+    simp [PItems.flow, dropSpaces, PItems.nodes]
+  | .cons m x r, hi, f, rest, acc, hf => by
+    have hx : x.l1 = true := by simp [PItems.l1] at hi; exact hi.1
+    have hr : r.l1 = true := by simp [PItems.l1] at hi; exact hi.2
+    have hneed : x.need + r.need + 2 ≤ f := by simpa [PItems.need] using hf
+    obtain ⟨f'', rfl⟩ : ∃ f'', f = f'' + 2 := ⟨f - 2, by omega⟩
+    rw [parseFlowSeqTail]
+    simp only [PItems.flow, Bool.false_eq_true, if_false, List.append_assoc, List.cons_append, List.nil_append,
+      dropSpaces, List.dropWhile_cons]
+    simp only [show ((',' : Char) == ' ') = false by decide, Bool.false_eq_true, if_false]
+    have e2 := flowNode x hx f'' (r.flow false ++ ']' :: rest) 0 (by omega) (delim_items r rest)
+    simp only [spaces, List.replicate_zero, List.nil_append, List.append_assoc] at e2
+    have st := itemStep f'' (m.gap + 1) x.flow (r.flow false ++ ']' :: rest) x.node acc (goodHead_flow x hx) e2
+    simp only [List.append_assoc] at st
+    rw [st, flowItemsTail r hr f'' rest (x.node :: acc) (by omega)]
+    simp [PItems.nodes]
+theorem flowEntriesTail : (es : PEntries) → es.l1 = true → ∀ (f : Nat) (rest : Str) (acc : List (Node × Node)), es.need ≤ f →
+    parseFlowMapTail f (es.flow false ++ '}' :: rest) acc = .ok (.map (acc.reverse ++ es.nodes), rest)
+  | .nil, _, f, rest, acc, hf => by
+    obtain ⟨f', rfl⟩ : ∃ f', f = f' + 1 := ⟨f - 1, by simp [PEntries.need] at hf; omega⟩
+    rw [parseFlowMapTail]
+    simp [PEntries.flow, dropSpaces, PEntries.nodes]
+  | .cons m key ks x r, hi, f, rest, acc, hf => by
+    have hks : ∃ sh eu, ks = .double sh eu := by
+      cases ks <;> simp [PEntries.l1] at hi
+      exact ⟨_, _, rfl⟩
+    obtain ⟨sh, eu, rfl⟩ := hks
+    have hx : x.l1 = true := by simp [PEntries.l1] at hi; exact hi.1
+    have hr : r.l1 = true := by simp [PEntries.l1] at hi; exact hi.2
+    have hneed : x.need + r.need + 3 ≤ f := by simpa [PEntries.need] using hf
+    obtain ⟨f'', rfl⟩ : ∃ f'', f = f'' + 2 := ⟨f - 2, by omega⟩
+    rw [parseFlowMapTail]
+    simp only [PEntries.flow, Bool.false_eq_true, if_false, List.append_assoc, List.cons_append, List.nil_append,
+      dropSpaces, List.dropWhile_cons]
+    simp only [show ((',' : Char) == ' ') = false by decide, Bool.false_eq_true, if_false]
+    have e2 := flowNode x hx f'' (r.flow false ++ '}' :: rest) (m.gap + 1) (by omega) (delim_entries r rest)
+    have st := entryStep f'' 1 m.gap sh eu key x.flow (r.flow false ++ '}' :: rest) x.node acc (goodHead_flow x hx) e2
+    simp only [spaces, List.replicate_succ, List.replicate_zero, List.append_assoc, List.cons_append, List.nil_append, keyText] at st ⊢
+    rw [st, flowEntriesTail r hr f'' rest ((.scalar false key, x.node) :: acc) (by omega)]
+    simp [PEntries.nodes, keyNode]
+end
+
+
+theorem isDigit_eq (c : Char) : isDigit c = c.isDigit := by
+  simp only [isDigit, Char.isDigit]
+  rfl
+
+theorem resolvePlain_digits (s : Str) (hne : s ≠ []) (hall : s.all isDigit = true) :
+    resolvePlain s = .int (natOfDigits 10 s) := by
+  cases s with
+  | nil => exact absurd rfl hne
+  | cons c t =>
+    have hc : isDigit c = true := by simp only [List.all_cons, Bool.and_eq_true] at hall; exact hall.1
+    have hw : ∀ w : Str, (∃ d r, w = d :: r ∧ isDigit d = false) → c :: t ≠ w := by
+      intro w ⟨d, r, hw, hd⟩ h
+      rw [hw] at h
+      have := (List.cons.inj h).1
+      subst this; rw [hc] at hd; cases hd
+    unfold resolvePlain
+    rw [if_neg, if_neg, if_neg]
+    · split
+      · rename_i ds heq
+        exfalso
+        have h2 := (List.cons.inj heq).2
+        subst h2
+        simp only [List.all_cons, Bool.and_eq_true] at hall
+        exact absurd hall.2.1 (by decide)
+      · rename_i ds heq
+        exfalso
+        have h2 := (List.cons.inj heq).2
+        subst h2
+        simp only [List.all_cons, Bool.and_eq_true] at hall
+        exact absurd hall.2.1 (by decide)
+      · rename_i ds heq
+        exfalso
+        have h1 := (List.cons.inj heq).1
+        subst h1; exact absurd hc (by decide)
+      · rename_i ds heq
+        exfalso
+        have h1 := (List.cons.inj heq).1
+        subst h1; exact absurd hc (by decide)
+      · simp [allDigits, hall]
+    · intro h
+      rcases h with h | h | h <;> exact hw _ ⟨_, _, rfl, by decide⟩ h
+    · intro h
+      rcases h with h | h | h <;> exact hw _ ⟨_, _, rfl, by decide⟩ h
+    · intro h
+      rcases h with h | h | h | h | h
+      · cases h
+      all_goals exact hw _ ⟨_, _, rfl, by decide⟩ h
+
+theorem resolvePlain_neg (s : Str) (hne : s ≠ []) (hall : s.all isDigit = true) :
+    resolvePlain ('-' :: s) = .int (- (natOfDigits 10 s : Int)) := by
+  have hw : ∀ w : Str, (∃ d r, w = d :: r ∧ d ≠ '-') → '-' :: s ≠ w := by
+    intro w ⟨d, r, hw, hd⟩ h
+    rw [hw] at h
+    exact hd (List.cons.inj h).1.symm
+  unfold resolvePlain
+  rw [if_neg, if_neg, if_neg]
+  · simp [allDigits, hall, hne]
+  · intro h
+    rcases h with h | h | h <;> exact hw _ ⟨_, _, rfl, by decide⟩ h
+  · intro h
+    rcases h with h | h | h <;> exact hw _ ⟨_, _, rfl, by decide⟩ h
+  · intro h
+    rcases h with h | h | h | h | h
+    · cases h
+    all_goals exact hw _ ⟨_, _, rfl, by decide⟩ h
+
+
 end SV.Yaml
